@@ -168,7 +168,9 @@ def run_scenario(ctx, sid, spec, timeout):
     try:
         out = json.load(open(outp))
     except (OSError, ValueError):
-        out = {"events": [], "config": None, "error": "no result file (driver %s)" % ("hung" if hung else "died")}
+        out = {"events": [], "config": None, "error": None, "complete": False}
+    if not out.get("complete") and not out.get("error"):
+        out["error"] = "driver %s before finishing" % ("had to be killed" if hung else "died")
     res.update(out)
     res["stderr_tail"] = open(os.path.join(d, "stderr.txt")).read()[-1500:]
     return res
@@ -264,7 +266,7 @@ def judge_network(res):
     stops = 0
     if res["hung"]:
         bad.append(("hang", "the scenario did not finish within its time limit (start/stop/program blocked)"))
-    if res["error"]:
+    if res["error"] and not res["hung"]:
         bad.append(("driver-error", "driver failed: " + res["error"][-300:]))
     last = None
     for e in res["events"]:
@@ -296,6 +298,8 @@ def judge_network(res):
             busy = [x for x, v in e["ports"].items() if v["connectable"] or not v["listen_again"]]
             if busy:
                 bad.append(("port-not-freed", "after stop() these ports cannot be listened on again: %r" % busy))
+            if e["running_property"]:
+                bad.append(("running-after-stop", "Network.running is still True after stop() although every process is gone"))
         elif k == "reopen" and (e["processes"] != 2 * n or not e["same_config"]):
             bad.append(("reopen", "Network(new=False) on the written configuration: %r" % e))
         elif k == "cleanup" and e["leftover"] and last == "stop":
@@ -324,7 +328,7 @@ def judge_stagger(res):
     n = len(nodes)
     if res["hung"]:
         bad.append(("hang", "the staggered scenario did not finish within its time limit"))
-    if res["error"]:
+    if res["error"] and not res["hung"]:
         bad.append(("driver-error", "driver failed: " + res["error"][-300:]))
     launched, seen_true, settled, finals = set(), set(), False, {}
     for e in res["events"]:
@@ -376,12 +380,12 @@ def life_case(res):
     steps = []
     for e in res["events"]:
         if e["ev"] == "start":
-            steps.append("(Start, %s)" % common.cblist(e["alive"]))
+            steps.append("(Start, %s, %s)" % (common.cblist(e["alive"]), common.cbool(e["running_flag"])))
         elif e["ev"] == "stop":
             flags = list(e["alive"])
             if len(e["os_alive"]) == len(flags):          # what the OS says about the same processes counts as well
                 flags = [a or o for a, o in zip(flags, e["os_alive"])]
-            steps.append("(Stop, %s)" % common.cblist(flags))
+            steps.append("(Stop, %s, %s)" % (common.cblist(flags), common.cbool(e["running_flag"])))
     return "CLife %d %s" % (n, common.clist(steps)), len(steps)
 
 
@@ -435,7 +439,7 @@ def run(ctx):
         return
     ports = Ports(ctx.seed)
     scen = build_scenarios(ctx, ports)
-    per_timeout = 420 if thorough else 170
+    per_timeout = 420 if thorough else 150
     t0 = time.time()
     with ThreadPoolExecutor(max_workers=4 if thorough else 4) as ex:
         results = list(ex.map(lambda s: run_scenario(ctx, s[0], s[1], per_timeout), scen))
